@@ -39,6 +39,16 @@ CHECKS = {
    technique="symbolic execution on int shadows; validity of each True answer decided by Z3 per path",
    note=EXPR_NOTE),
 }
+CHECKS["C19"] = dict(cat="model_checking", ref="4 C19", engine="po-smt",
+   text="The source of _enter_z3/_exit_z3 (and the call word of condom on normal and raising paths) is translated on every run into an SMT "
+        "partial-order encoding (one event per executed source line, integer clocks, reads-from for counter/flag/GC state/lock, arbitrary executed "
+        "prefix per thread, symbolic initial GC state); Z3 decides for every listed tuple of per-thread call words whether any schedule violates "
+        "'GC disabled while a call is in progress', 'counter never negative / underflow branch never taken', 'state restored when all returned'. "
+        "Counterexamples are replayed on the real functions with real threads under a line-level scheduler. Bounded: <=3 threads, nesting <=2.",
+   technique="SMT (Z3) partial-order bounded model checking of an encoding generated from the functions' source; replay on the real code",
+   note="Trusted: Z3; the AST translator (guarded by a reachability twin and two must-fail source mutants every run); documented semantics of "
+        "gc.enable/disable/isenabled and threading.Lock; atomicity of one source line (the property's granularity). Unsupported constructs in a "
+        "future version of the functions give exit 3 (cannot encode), never a verdict.")
 NOT_YET = {}
 NA = {
  "C20": "Real OS-thread preemption inside CPython and libz3 cannot be encoded by any engine available here; a stress run would be sampling, i.e. a different technique (DESIGN.md section 5).",
@@ -77,7 +87,9 @@ def main():
                   "baseline_off_cmd": "cd /repo && /venv/bin/python -m pytest -ra -q -p no:cacheprovider --timeout=900 --continue-on-collection-errors",
                   "source_commits": [], "add_only": True},
         "engines": [
-            {"name": "pysym", "path": "/verif/pysym", "serves_properties": sorted(CHECKS),
+            {"name": "po-smt", "path": "/verif/harness/p_c19.py", "serves_properties": ["C19"],
+             "kind_free_text": "Python-AST to SMT partial-order encoding (event clocks + reads-from), decided by Z3"},
+            {"name": "pysym", "path": "/verif/pysym", "serves_properties": sorted(k for k in CHECKS if k != "C19"),
              "kind_free_text": "own symbolic-execution engine: int/float subclasses carrying Z3 terms run through the real claripy code, fork-by-replay / fork-by-process, Z3 decides every branch and every assertion"},
         ],
         "checks": checks,
